@@ -39,6 +39,9 @@ func keyFor(h *History, base, engine string) string {
 	if h.KnownKey != "" && engine == h.KnownEngine {
 		return h.KnownKey
 	}
+	if h.KnownKey != "" && h.KnownEngine == "*" {
+		return h.KnownKey + ":" + engine
+	}
 	return base + ":" + engine
 }
 
@@ -70,8 +73,12 @@ func (r *runner) runHistory(name string, h *History) {
 			return
 		}
 		next0 := eng.Next()
-		p := &PState{Next: next0}
-		var before []VarEnt
+		p := InitPState(next0)
+		before, _, bad0 := eng.Walk()
+		if bad0 != "" {
+			r.sum.Fail("harness:initial-walk", bad0, nil)
+			return
+		}
 		prevNext := next0
 		var raws []RawObs
 		for i, tx := range h.Txs {
